@@ -20,7 +20,7 @@ RULE = ('Removal-enabled states (histories of 2-12 calls, interval spans, multi-
 ASSUMPTIONS = ['e > t', 'node_density(u): denominator summed over all nodes including u (the value the repository test pins: 5/9)',
                'the per-pair inter-event form (u, v) is not named by the statement and is not checked']
 TECHNIQUE = 'differential PBT: exact rational recomputation of every statistic from the reference model / the stream'
-BUDGET = {'quick': {'cases': 10000, 'seconds': 45}, 'thorough': {'cases': 120000, 'seconds': 540}}
+BUDGET = {'quick': {'cases': 10000, 'seconds': 45}, 'thorough': {'cases': 400000, 'seconds': 540}}
 KINDS = ['add', 'add', 'add', 'add', 'add', 'add_from', 'path', 'star', 'cycle', 'node', 'recip']
 
 
